@@ -194,6 +194,16 @@ var RealRunDir = func() string {
 var RunDirBase = RealRunDir
 
 func InitRunDir() {
+	// file arguments given relative to the caller's directory must keep working after the chdir
+	for i, a := range os.Args {
+		if i > 0 && a != "" && !filepath.IsAbs(a) {
+			if fi, err := os.Stat(a); err == nil && !fi.IsDir() {
+				if abs, err := filepath.Abs(a); err == nil {
+					os.Args[i] = abs
+				}
+			}
+		}
+	}
 	if err := os.MkdirAll(RealRunDir, 0o755); err != nil {
 		return
 	}
